@@ -1,6 +1,6 @@
 /-
   C04 — Every analytic gradient is the derivative of the value it accompanies.
-  Property theorems only (helpers: Proofs/C04Radial, C04Lists, C04Kernel, C04Chain, C04Gauss).
+  Property theorems only (helpers: Proofs/C04Radial, C04Lists, C04Kernel, C04Chain, C04Gauss, C04Jacobi).
 
   All statements are over ℝ (the `Arith ℝ` instance of the SAME definitions the driver runs on `Float`):
   Model/Kernels.lean (values) and Model/C04.lean (gradients).  "Along coordinate j" is expressed with
@@ -19,6 +19,7 @@ import Proofs.C04Kernel
 import Proofs.C04Chain
 import Proofs.C04Gauss
 import Proofs.C04Mills
+import Proofs.C04Jacobi
 
 namespace C04
 open Kernels
@@ -480,12 +481,182 @@ theorem log_domain_chain {L : ℝ → ℝ} {L' a : ℝ} (hL : HasDerivAt L L' (R
     HasDerivAt (fun a => L (Real.exp a)) (L' * Real.exp a) a :=
   logDomain_hasDerivAt hL
 
-/-  FULL STATEMENT (not proved): for every n, symmetric positive definite K(θ) = L Lᵀ with entry-wise
-    derivative dK, a = K⁻¹(y − Pβ) (β the GLS coefficients), B = K⁻¹:
-      HasDerivAt (fun θ => loglik s (y − Pβ) a (diag L)) (−s (−aᵀ dK a + tr(B dK))) θ.
-    Missing: the derivative of the matrix inverse and Jacobi's formula d log det K = tr(K⁻¹ dK) for
-    list-encoded matrices (and the envelope argument for β).  Proved below for one observation; the
-    general formula is compared numerically (model vs library vs central differences) on every run. -/
+section LogLikMatrix
+open scoped Matrix
+
+/-  THE LOG-MARGINAL-LIKELIHOOD GRADIENT — what is proved, for every number n of observations.
+
+    Setting: `K : ℝ → Matrix (Fin n) (Fin n) ℝ` a one-parameter family of kernel matrices (one hyperparameter
+    moving, the others fixed), `K'` its entry-wise derivative at θ (`hK : ∀ i j, HasDerivAt (K · i j) (K' i j) θ`).
+
+    PROVED (Proofs/C04Jacobi.lean, restated below):
+      * Jacobi's formula  d det K = tr(adj(K) dK)                                   `loglik_grad_jacobi`
+      * d log det K = tr(K⁻¹ dK)  (det K(θ) > 0)                                    `loglik_grad_logdet`
+      * d(K⁻¹) = −K⁻¹ dK K⁻¹ entry-wise (det K(θ) ≠ 0)                              `loglik_grad_inverse`
+      * d(rᵀK⁻¹r) = −aᵀ dK a, a = K⁻¹r, r constant, K(θ) symmetric                  `loglik_grad_inv_quadratic`
+      * zero-mean GP, matrix form: −s(rᵀK⁻¹r + log det K) has derivative
+        −s(−aᵀ dK a + tr(K⁻¹ dK))                                                   `loglik_grad_matrix`
+      * K = L Lᵀ, L lower triangular with positive diagonal ⇒ log det K = 2 Σ log L_ii  `loglik_grad_cholesky`
+      * zero-mean GP IN THE MODEL'S OWN TERMS: the list-encoded `loglikGrad` entry is the derivative of the
+        list-encoded `loglik` (value computed from the Cholesky diagonal as the library does)   `loglik_grad_zero_mean`
+      * POLYNOMIAL MEAN: with β(θ) = (PᵀK⁻¹P)⁻¹PᵀK⁻¹y the GLS coefficients (they DO depend on θ) and
+        r(θ) = y − Pβ(θ), the same formula −s(−aᵀ dK a + tr(K⁻¹ dK)), a = K⁻¹r(θ), is the derivative
+        (envelope argument: Pᵀa = 0)                       `loglik_grad_poly_mean_matrix`, `loglik_grad_poly_mean`
+      * the same in the log domain (hyperparameter `exp u`, entry scaled by `logScale = exp u`)   `loglik_grad_poly_mean_log`
+      * the extra term `2·a·(−P (PᵀK⁻¹P)⁻¹ (K⁻¹P)ᵀ dK a)` the library adds under `include_nonzero_correction`
+        is identically 0 in exact arithmetic (again Pᵀa = 0), so both settings of the flag give the
+        derivative                                                                   `loglik_grad_correction_zero`
+      * the hypotheses (det K > 0, K symmetric, det PᵀK⁻¹P ≠ 0) follow from K positive definite and P of full
+        column rank                                                                  `loglik_grad_hyp_of_posDef`
+      * one observation, written with scalars (kept from before)                     `loglik_grad_partial`
+      * the log-domain factor                                                        `log_domain_chain`
+
+    NOT PROVED here (remains a numerical comparison, model vs library vs finite differences, on every run):
+      * that the library's `K_inv_demeaned_y`, `K_chol`, `cho_solve(K_chol, dK)` ARE the exact `a`, `L`, `K⁻¹dK`
+        (floating-point Cholesky / triangular solves; conditioning enters the tolerance);
+      * that `build_kernel_hparam_grad_tensor` is the entry-wise derivative `K'` of `build_kernel_matrix` for the whole
+        matrix at once — entry by entry this is `kernel_hparam_grad` (section 2) plus the noise / auto-noise diagonal;
+      * the floating-point model of the gradient (`Float` instance) — only the ℝ instance is differentiated. -/
+
+/-- **Jacobi's formula**, every n: `d det K = tr(adj(K)·dK)` -/
+theorem loglik_grad_jacobi {n : ℕ} {K : ℝ → Matrix (Fin n) (Fin n) ℝ} {K' : Matrix (Fin n) (Fin n) ℝ} {θ : ℝ}
+    (hK : ∀ i j, HasDerivAt (fun t => K t i j) (K' i j) θ) :
+    HasDerivAt (fun t => (K t).det) (Matrix.trace (Matrix.adjugate (K θ) * K')) θ :=
+  det_hasDerivAt hK
+
+/-- **d log det K = tr(K⁻¹ dK)**, every n -/
+theorem loglik_grad_logdet {n : ℕ} {K : ℝ → Matrix (Fin n) (Fin n) ℝ} {K' : Matrix (Fin n) (Fin n) ℝ} {θ : ℝ}
+    (hK : ∀ i j, HasDerivAt (fun t => K t i j) (K' i j) θ) (hpos : 0 < (K θ).det) :
+    HasDerivAt (fun t => Real.log (K t).det) (Matrix.trace ((K θ)⁻¹ * K')) θ :=
+  logdet_hasDerivAt hK hpos
+
+/-- **d(K⁻¹) = −K⁻¹ dK K⁻¹**, entry by entry, every n -/
+theorem loglik_grad_inverse {n : ℕ} {K : ℝ → Matrix (Fin n) (Fin n) ℝ} {K' : Matrix (Fin n) (Fin n) ℝ} {θ : ℝ}
+    (hK : ∀ i j, HasDerivAt (fun t => K t i j) (K' i j) θ) (hdet : (K θ).det ≠ 0) (i j : Fin n) :
+    HasDerivAt (fun t => (K t)⁻¹ i j) ((-((K θ)⁻¹ * K' * (K θ)⁻¹)) i j) θ :=
+  inv_hasDerivAt hK hdet i j
+
+/-- **d(rᵀK⁻¹r) = −aᵀ dK a** with `a = K⁻¹r`, `K θ` symmetric, `r` constant -/
+theorem loglik_grad_inv_quadratic {n : ℕ} {K : ℝ → Matrix (Fin n) (Fin n) ℝ} {K' : Matrix (Fin n) (Fin n) ℝ}
+    {θ : ℝ} (hK : ∀ i j, HasDerivAt (fun t => K t i j) (K' i j) θ) (hdet : (K θ).det ≠ 0)
+    (hsymm : (K θ).IsSymm) (r : Fin n → ℝ) :
+    HasDerivAt (fun t => r ⬝ᵥ ((K t)⁻¹ *ᵥ r))
+      (-(((K θ)⁻¹ *ᵥ r) ⬝ᵥ (K' *ᵥ ((K θ)⁻¹ *ᵥ r)))) θ :=
+  invQuad_hasDerivAt_symm hK hdet hsymm r
+
+/-- **zero-mean GP, matrix form, every n**: `−s(rᵀK⁻¹r + log det K)` has derivative
+    `−s(−aᵀ dK a + tr(K⁻¹ dK))`, `a = K⁻¹ r` -/
+theorem loglik_grad_matrix {n : ℕ} {K : ℝ → Matrix (Fin n) (Fin n) ℝ} {K' : Matrix (Fin n) (Fin n) ℝ} {θ : ℝ}
+    (hK : ∀ i j, HasDerivAt (fun t => K t i j) (K' i j) θ) (hpos : 0 < (K θ).det) (hsymm : (K θ).IsSymm)
+    (s : ℝ) (r : Fin n → ℝ) :
+    HasDerivAt (fun t => -s * (r ⬝ᵥ ((K t)⁻¹ *ᵥ r) + Real.log (K t).det))
+      (-s * (-(((K θ)⁻¹ *ᵥ r) ⬝ᵥ (K' *ᵥ ((K θ)⁻¹ *ᵥ r))) + Matrix.trace ((K θ)⁻¹ * K'))) θ :=
+  loglikMatrix_hasDerivAt hK hpos hsymm s r
+
+/-- non-vacuity of `loglik_grad_matrix`: `K t = [[2 + t, 1], [1, 2]]` at θ = 0, `K' = [[1, 0], [0, 0]]` -/
+example (s : ℝ) (r : Fin 2 → ℝ) :
+    let K : ℝ → Matrix (Fin 2) (Fin 2) ℝ := fun t => !![2 + t, 1; 1, 2]
+    HasDerivAt (fun t => -s * (r ⬝ᵥ ((K t)⁻¹ *ᵥ r) + Real.log (K t).det))
+      (-s * (-(((K 0)⁻¹ *ᵥ r) ⬝ᵥ ((!![1, 0; 0, 0] : Matrix (Fin 2) (Fin 2) ℝ) *ᵥ ((K 0)⁻¹ *ᵥ r)))
+        + Matrix.trace ((K 0)⁻¹ * !![1, 0; 0, 0]))) 0 := by
+  intro K
+  refine loglik_grad_matrix (K := K) (K' := !![1, 0; 0, 0]) ?_ ?_ ?_ s r
+  · intro i j
+    fin_cases i <;> fin_cases j
+    · exact (hasDerivAt_id (0 : ℝ)).const_add 2
+    · exact hasDerivAt_const (0 : ℝ) (1 : ℝ)
+    · exact hasDerivAt_const (0 : ℝ) (1 : ℝ)
+    · exact hasDerivAt_const (0 : ℝ) (2 : ℝ)
+  · show 0 < (!![2 + 0, 1; 1, 2] : Matrix (Fin 2) (Fin 2) ℝ).det
+    rw [Matrix.det_fin_two_of]; norm_num
+  · ext i j
+    fin_cases i <;> fin_cases j <;> rfl
+
+/-- **Cholesky link**: the library evaluates `log det K` as `2 Σ log L_ii` -/
+theorem loglik_grad_cholesky {n : ℕ} (L : Matrix (Fin n) (Fin n) ℝ) (hL : ∀ i j, i < j → L i j = 0)
+    (hpos : ∀ i, 0 < L i i) :
+    Real.log (L * Lᵀ).det = 2 * ∑ i, Real.log (L i i) :=
+  logdet_cholesky L hL hpos
+
+/-- the list model read back as matrices: value and gradient entry -/
+theorem loglik_grad_model_eq {n : ℕ} (s : ℝ) (r a d : Fin n → ℝ) (B dK : Matrix (Fin n) (Fin n) ℝ) :
+    loglik s (List.ofFn r) (List.ofFn a) (List.ofFn d) = -s * (r ⬝ᵥ a + 2 * ∑ i, Real.log (d i)) ∧
+    (loglikGrad s (List.ofFn a) (ofFnM B) [ofFnM dK] [1]).getD 0 0
+      = -s * (-(a ⬝ᵥ (dK *ᵥ a)) + Matrix.trace (B * dK)) :=
+  ⟨loglik_ofFn s r a d, loglikGrad_ofFn s a B dK⟩
+
+/-- **loglik_grad, zero mean, every n, in the model's own terms**: near θ the kernel matrix is `L Lᵀ`
+    (`L` lower triangular, positive diagonal — the Cholesky factor the library keeps); the value is the model's
+    `loglik` of `r`, `a = K⁻¹r` and the diagonal of `L`; the model's `loglikGrad` entry for `dK = K'` is its derivative. -/
+theorem loglik_grad_zero_mean {n : ℕ} {K L : ℝ → Matrix (Fin n) (Fin n) ℝ} {K' : Matrix (Fin n) (Fin n) ℝ} {θ : ℝ}
+    (hK : ∀ i j, HasDerivAt (fun t => K t i j) (K' i j) θ)
+    (hchol : ∀ᶠ t in nhds θ, K t = L t * (L t)ᵀ ∧ (∀ i j, i < j → L t i j = 0) ∧ ∀ i, 0 < L t i i)
+    (s : ℝ) (r : Fin n → ℝ) :
+    HasDerivAt (fun t => loglik s (List.ofFn r) (List.ofFn ((K t)⁻¹ *ᵥ r)) (List.ofFn fun i => L t i i))
+      ((loglikGrad s (List.ofFn ((K θ)⁻¹ *ᵥ r)) (ofFnM (K θ)⁻¹) [ofFnM K'] [1]).getD 0 0) θ :=
+  loglik_list_hasDerivAt hK hchol s r
+
+/-- **polynomial mean, matrix form, every n**: β(t) = GLS coefficients, r(t) = y − Pβ(t) both move with t;
+    the derivative is still `−s(−aᵀ dK a + tr(K⁻¹ dK))` with `a = K⁻¹ r(θ)` -/
+theorem loglik_grad_poly_mean_matrix {n p : ℕ} {K : ℝ → Matrix (Fin n) (Fin n) ℝ} {K' : Matrix (Fin n) (Fin n) ℝ}
+    {θ : ℝ} (hK : ∀ i j, HasDerivAt (fun t => K t i j) (K' i j) θ) (hpos : 0 < (K θ).det)
+    (hsymm : (K θ).IsSymm) (P : Matrix (Fin n) (Fin p) ℝ) (hG : (Pᵀ * (K θ)⁻¹ * P).det ≠ 0) (s : ℝ)
+    (y : Fin n → ℝ) :
+    HasDerivAt
+      (fun t => -s * (glsResidual P (K t) y ⬝ᵥ ((K t)⁻¹ *ᵥ glsResidual P (K t) y) + Real.log (K t).det))
+      (-s * (-(((K θ)⁻¹ *ᵥ glsResidual P (K θ) y) ⬝ᵥ (K' *ᵥ ((K θ)⁻¹ *ᵥ glsResidual P (K θ) y)))
+        + Matrix.trace ((K θ)⁻¹ * K'))) θ :=
+  loglikGLS_hasDerivAt hK hpos hsymm P hG s y
+
+/-- what `glsResidual` is: `y − P (PᵀK⁻¹P)⁻¹ PᵀK⁻¹ y` -/
+theorem loglik_grad_gls_def {n p : ℕ} (P : Matrix (Fin n) (Fin p) ℝ) (K : Matrix (Fin n) (Fin n) ℝ) (y : Fin n → ℝ) :
+    glsResidual P K y = y - P *ᵥ ((Pᵀ * K⁻¹ * P)⁻¹ *ᵥ (Pᵀ *ᵥ (K⁻¹ *ᵥ y))) := rfl
+
+/-- **polynomial mean, in the model's own terms, every n** -/
+theorem loglik_grad_poly_mean {n p : ℕ} {K L : ℝ → Matrix (Fin n) (Fin n) ℝ} {K' : Matrix (Fin n) (Fin n) ℝ}
+    {θ : ℝ} (hK : ∀ i j, HasDerivAt (fun t => K t i j) (K' i j) θ)
+    (hchol : ∀ᶠ t in nhds θ, K t = L t * (L t)ᵀ ∧ (∀ i j, i < j → L t i j = 0) ∧ ∀ i, 0 < L t i i)
+    (P : Matrix (Fin n) (Fin p) ℝ) (hG : (Pᵀ * (K θ)⁻¹ * P).det ≠ 0) (s : ℝ) (y : Fin n → ℝ) :
+    HasDerivAt
+      (fun t => loglik s (List.ofFn (glsResidual P (K t) y)) (List.ofFn ((K t)⁻¹ *ᵥ glsResidual P (K t) y))
+        (List.ofFn fun i => L t i i))
+      ((loglikGrad s (List.ofFn ((K θ)⁻¹ *ᵥ glsResidual P (K θ) y)) (ofFnM (K θ)⁻¹) [ofFnM K'] [1]).getD 0 0) θ :=
+  loglik_list_gls_hasDerivAt hK hchol P hG s y
+
+/-- **polynomial mean, log domain** (`log_domain=True`): the hyperparameter is `exp u`, the model's entry
+    carries `logScale = exp u`, and it is the derivative with respect to `u` -/
+theorem loglik_grad_poly_mean_log {n p : ℕ} {K L : ℝ → Matrix (Fin n) (Fin n) ℝ} {K' : Matrix (Fin n) (Fin n) ℝ}
+    {u : ℝ} (hK : ∀ i j, HasDerivAt (fun t => K t i j) (K' i j) (Real.exp u))
+    (hchol : ∀ᶠ t in nhds (Real.exp u),
+      K t = L t * (L t)ᵀ ∧ (∀ i j, i < j → L t i j = 0) ∧ ∀ i, 0 < L t i i)
+    (P : Matrix (Fin n) (Fin p) ℝ) (hG : (Pᵀ * (K (Real.exp u))⁻¹ * P).det ≠ 0) (s : ℝ) (y : Fin n → ℝ) :
+    HasDerivAt
+      (fun v => loglik s (List.ofFn (glsResidual P (K (Real.exp v)) y))
+        (List.ofFn ((K (Real.exp v))⁻¹ *ᵥ glsResidual P (K (Real.exp v)) y))
+        (List.ofFn fun i => L (Real.exp v) i i))
+      ((loglikGrad s (List.ofFn ((K (Real.exp u))⁻¹ *ᵥ glsResidual P (K (Real.exp u)) y))
+        (ofFnM (K (Real.exp u))⁻¹) [ofFnM K'] [Real.exp u]).getD 0 0) u :=
+  loglik_list_gls_log_hasDerivAt hK hchol P hG s y
+
+/-- the normal equations `Pᵀ a = 0`, and their consequence: the term added under
+    `include_nonzero_correction` — `2·a·(−P w)` for `w = (PᵀK⁻¹P)⁻¹ (K⁻¹P)ᵀ dK a` — is zero for EVERY `w` -/
+theorem loglik_grad_correction_zero {n p : ℕ} (P : Matrix (Fin n) (Fin p) ℝ) (K : Matrix (Fin n) (Fin n) ℝ)
+    (y : Fin n → ℝ) (hG : (Pᵀ * K⁻¹ * P).det ≠ 0) :
+    Pᵀ *ᵥ (K⁻¹ *ᵥ glsResidual P K y) = 0 ∧
+    ∀ w : Fin p → ℝ, 2 * ((K⁻¹ *ᵥ glsResidual P K y) ⬝ᵥ (-(P *ᵥ w))) = 0 := by
+  refine ⟨gls_normal P K y hG, fun w => ?_⟩
+  rw [dotProduct_neg, gls_correction_zero P K y hG w]
+  norm_num
+
+/-- positive definite `K`, full-column-rank `P` ⇒ every hypothesis used above -/
+theorem loglik_grad_hyp_of_posDef {n p : ℕ} {K : Matrix (Fin n) (Fin n) ℝ} (hK : K.PosDef)
+    (P : Matrix (Fin n) (Fin p) ℝ) (hP : Function.Injective P.mulVec) :
+    0 < K.det ∧ K.IsSymm ∧ (Pᵀ * K⁻¹ * P).det ≠ 0 :=
+  gls_hyp_of_posDef hK P hP
+
+end LogLikMatrix
+
+/-- one observation, in scalars (the statement that was proved before the general one) -/
 theorem loglik_grad_partial {K : ℝ → ℝ} {K' θ : ℝ} (s y : ℝ) (hK : HasDerivAt K K' θ) (hpos : 0 < K θ) :
     HasDerivAt (fun u => loglik s [y] [y / K u] [Real.sqrt (K u)])
       ((loglikGrad s [y / K θ] [[1 / K θ]] [[[K']]] [1]).getD 0 0) θ :=
